@@ -360,6 +360,11 @@ fn dkim_sign_fixed_time(message: &mut Message, dkim_config: &DkimConfig, timesta
         dkim_config.canonicalization.body,
     ));
     let bh = crate::base64::encode(body_hash);
+    #[cfg(feature = "verif-hooks")]
+    crate::verif_hooks::observe(
+        "dkim.body",
+        &dkim_canonicalize_body(&message.body_raw(), dkim_config.canonicalization.body),
+    );
     let mut signed_headers_list =
         dkim_config
             .headers
@@ -390,6 +395,13 @@ fn dkim_sign_fixed_time(message: &mut Message, dkim_config: &DkimConfig, timesta
     hashed_headers.update(signed_headers.as_bytes());
     hashed_headers.update(canonicalized_dkim_header.trim_end().as_bytes());
     let hashed_headers = hashed_headers.finalize();
+    #[cfg(feature = "verif-hooks")]
+    crate::verif_hooks::observe(
+        "dkim.headers",
+        [signed_headers.as_bytes(), canonicalized_dkim_header.trim_end().as_bytes()]
+            .concat()
+            .as_slice(),
+    );
     let signature = match &dkim_config.private_key.0 {
         InnerDkimSigningKey::Rsa(private_key) => crate::base64::encode(
             private_key
@@ -411,6 +423,39 @@ fn dkim_sign_fixed_time(message: &mut Message, dkim_config: &DkimConfig, timesta
         HeaderName::new_from_ascii_str("DKIM-Signature"),
         dkim_header.get_raw("DKIM-Signature").unwrap().to_owned(),
     ));
+}
+
+#[cfg(feature = "verif-hooks")]
+pub(crate) fn verif_sign_fixed_time(
+    message: &mut Message,
+    dkim_config: &DkimConfig,
+    timestamp: SystemTime,
+) {
+    dkim_sign_fixed_time(message, dkim_config, timestamp);
+}
+
+#[cfg(feature = "verif-hooks")]
+pub(crate) fn verif_canonicalize_body(body: &[u8], relaxed: bool) -> Vec<u8> {
+    let canonicalization = if relaxed {
+        DkimCanonicalizationType::Relaxed
+    } else {
+        DkimCanonicalizationType::Simple
+    };
+    dkim_canonicalize_body(body, canonicalization).into_owned()
+}
+
+#[cfg(feature = "verif-hooks")]
+pub(crate) fn verif_canonicalize_headers(
+    names: &[&str],
+    headers: &Headers,
+    relaxed: bool,
+) -> String {
+    let canonicalization = if relaxed {
+        DkimCanonicalizationType::Relaxed
+    } else {
+        DkimCanonicalizationType::Simple
+    };
+    dkim_canonicalize_headers(names.iter().copied(), headers, canonicalization)
 }
 
 #[cfg(test)]
